@@ -53,9 +53,9 @@ theorem c10_no_ctor_for_abstract (c : Cls) (h : isAbstract c = true) : isDefault
   simp [isDefault, isCopy, h]
 
 /-- a user-provided (not defaulted) destructor alone decides destructibility -/
-theorem c10_declared_dtor_decides (bases : Bases) (dctor : Option SM) (octor : Bool) (cctor mctor : Option SM) (sm : SM)
+theorem c10_declared_dtor_decides (bases : Bases) (dctor : Option SM) (octor : Bool) (cctor mctor : Option SM) (sm : SM) (ma : Bool)
     (fields : Fields) (vfns : List VDecl) (v : Nat) (hd : sm.defaulted = false) :
-    isDestructibleV (.mk bases dctor octor cctor mctor (some sm) fields vfns) v = (decide (sm.vis ≤ v) && !sm.deleted) := by
+    isDestructibleV (.mk bases dctor octor cctor mctor (some sm) ma fields vfns) v = (decide (sm.vis ≤ v) && !sm.deleted) := by
   simp only [isDestructibleV, gate, hd]
   by_cases h1 : sm.vis > v
   · have : ¬ sm.vis ≤ v := by omega
@@ -64,14 +64,31 @@ theorem c10_declared_dtor_decides (bases : Bases) (dctor : Option SM) (octor : B
     cases hdel : sm.deleted <;> simp [h1, this, hdel]
 
 /-- a deleted default constructor / copy constructor / destructor is never usable, whoever asks -/
-theorem c10_deleted_never_constructible (bases : Bases) (octor : Bool) (o1 o2 o3 : Option SM) (sm : SM)
+theorem c10_deleted_never_constructible (bases : Bases) (octor : Bool) (o1 o2 o3 : Option SM) (sm : SM) (ma : Bool)
     (fields : Fields) (vfns : List VDecl) (v : Nat) (hd : sm.deleted = true) :
-    isDefaultV (.mk bases (some sm) octor o1 o2 o3 fields vfns) v = false ∧
-    isCopyV (.mk bases o1 octor (some sm) o2 o3 fields vfns) v = false ∧
-    isDestructibleV (.mk bases o1 octor o2 o3 (some sm) fields vfns) v = false := by
+    isDefaultV (.mk bases (some sm) octor o1 o2 o3 ma fields vfns) v = false ∧
+    isCopyV (.mk bases o1 octor (some sm) o2 o3 ma fields vfns) v = false ∧
+    isDestructibleV (.mk bases o1 octor o2 o3 (some sm) ma fields vfns) v = false := by
   refine ⟨?_, ?_, ?_⟩ <;>
   · simp only [isDefaultV, isCopyV, isDestructibleV, gate, hd]
     by_cases h1 : sm.vis > v <;> simp [h1]
+
+/-- **[class.copy.ctor]/6**: a class that declares a move constructor *or a move assignment
+operator* and no copy constructor has no usable copy constructor, whoever asks and whatever its
+bases and members are -/
+theorem c10_move_deletes_copy (bases : Bases) (dctor : Option SM) (octor : Bool) (mctor dtor : Option SM) (ma : Bool)
+    (fields : Fields) (vfns : List VDecl) (v : Nat) (h : mctor.isSome = true ∨ ma = true) :
+    isCopyV (.mk bases dctor octor none mctor dtor ma fields vfns) v = false := by
+  have hc : (mctor.isSome || ma) = true := by
+    rcases h with h | h <;> simp [h]
+  simp [isCopyV, hc]
+
+/-- without either, the implicit copy constructor is usable exactly when the destructor is and
+every base and non-static member can be copied and destroyed -/
+theorem c10_implicit_copy (bases : Bases) (dctor : Option SM) (octor : Bool) (dtor : Option SM)
+    (fields : Fields) (vfns : List VDecl) (v : Nat) :
+    isCopyV (.mk bases dctor octor none none dtor false fields vfns) v = (ownDtorOk dtor v && copyB bases && copyF fields) := by
+  simp [isCopyV]
 
 /-! ### non-vacuity and regression examples -/
 
@@ -79,21 +96,24 @@ private def noSM : Option SM := none
 private def pureF : VDecl := ⟨1, true, true, false⟩
 private def plainF : VDecl := ⟨1, false, false, false⟩
 /-- `struct A { virtual int f() = 0; };` -/
-private def A : Cls := .mk .nil noSM false noSM noSM noSM .nil [pureF]
+private def A : Cls := .mk .nil noSM false noSM noSM noSM false .nil [pureF]
 /-- `struct B : A { int f(); };` — concrete, and (after the fix) default- and copy-constructible -/
-private def B : Cls := .mk (.cons A 0 false .nil) noSM false noSM noSM noSM .nil [plainF]
+private def B : Cls := .mk (.cons A 0 false .nil) noSM false noSM noSM noSM false .nil [plainF]
 example : isAbstract A = true ∧ isAbstract B = false := by decide
 example : isDefault B = true ∧ isCopy B = true ∧ isDefault A = false := by decide
 /-- `struct P { virtual ~P() = 0; }; struct Q : P {};` — Q is not abstract -/
-private def P : Cls := .mk .nil noSM false noSM noSM (some ⟨0, false, false, true, true⟩) .nil []
-private def Q : Cls := .mk (.cons P 0 false .nil) noSM false noSM noSM noSM .nil []
+private def P : Cls := .mk .nil noSM false noSM noSM (some ⟨0, false, false, true, true⟩) false .nil []
+private def Q : Cls := .mk (.cons P 0 false .nil) noSM false noSM noSM noSM false .nil []
 example : isAbstract P = true ∧ isAbstract Q = false ∧ isPolymorphic Q = true := by decide
 /-- `struct E : N { E() = default; };` with `N` not default-constructible: E() is deleted -/
-private def N : Cls := .mk .nil noSM true noSM noSM noSM .nil []
-private def E : Cls := .mk (.cons N 0 false .nil) (some ⟨0, false, true, false, false⟩) false noSM noSM noSM .nil []
+private def N : Cls := .mk .nil noSM true noSM noSM noSM false .nil []
+private def E : Cls := .mk (.cons N 0 false .nil) (some ⟨0, false, true, false, false⟩) false noSM noSM noSM false .nil []
 example : isDefault N = false ∧ isDefault E = false := by decide
 /-- a const member without initializer deletes the implicit default constructor -/
-example : isDefault (.mk .nil noSM false noSM noSM noSM (.cons (.cint false false) .nil) []) = false := by decide
-example : isDefault (.mk .nil noSM false noSM noSM noSM (.cons (.cint true false) .nil) []) = true := by decide
+example : isDefault (.mk .nil noSM false noSM noSM noSM false (.cons (.cint false false) .nil) []) = false := by decide
+example : isDefault (.mk .nil noSM false noSM noSM noSM false (.cons (.cint true false) .nil) []) = true := by decide
+/-- `struct M { M &operator=(M &&); };` is not copy-constructible; `struct H { M m; };` neither -/
+private def Mv : Cls := .mk .nil noSM false noSM noSM noSM true .nil []
+example : isCopy Mv = false ∧ isDefault Mv = true ∧ isCopy (.mk .nil noSM false noSM noSM noSM false (.cons (.cls Mv false) .nil) []) = false := by decide
 
 end IgVerif.C10
